@@ -13,6 +13,14 @@ CLAIMED = {
           "Seeded search over interleavings of 2-4 threads mixing push, snapshot reads, is_empty and clears on one bucket pre-filled next to the 64-slot block boundary; every operation on write/read/tail/next and both quiescence loops is a scheduling point. Oracle over the recorded history: multiset conservation (each pushed tag delivered to exactly one clear or left for the final drain), snapshot completeness window, no fabricated/duplicate/torn value, per-block order, no double drop of values with destructors. Three genuine defects found this way were repaired (known_findings.json).",
           "Sequentially consistent interleavings only; internals of crossbeam-epoch are single steps; leak of values with destructors is not asserted (epoch reclamation is deferred); plans using the callback-less clear() are checked for fabrication/duplication/order only.",
           "DESIGN.md 4/C05"),
+  "C04": ("deterministic simulation (dsim): seeded schedules over handle clones updating shared atomic storage from 2-4 threads, every atomic RMW / CAS-loop step a scheduling point",
+          "Seeded search over interleavings of counter increment/absolute, gauge increment/decrement/set and histogram record/record_many through cloned handles; oracle: exact wrapped sums, monotone absolute counters, exact integer-valued gauge sums, linearizable set, record_many delivers exactly n, documented IntoF64 conversions, no panic for extreme values, no-op handles inert.",
+          "Sequentially consistent interleavings only; logging doubles stand in for custom HistogramFn implementations.",
+          "DESIGN.md 4/C04"),
+  "C20": ("deterministic simulation (dsim): seeded schedules over emitters racing into_inner / handle drop at Weak::upgrade, Arc::try_unwrap and strong-reference-drop granularity",
+          "Seeded search over interleavings of 1-3 emitting threads (all six Recorder methods through the weak wrapper) with RecoveryHandle::into_inner or drop; oracle: zero calls in flight at the instant into_inner returns, nothing enters after finalisation, every emission completed before recovery reached the recorder, later ones are inert, drop count exactly 1. One deviation is recorded as a known finding (handle drop while a call is in flight).",
+          "Sequentially consistent interleavings only; std Arc/Weak are replaced under the guard by transparent shims that announce upgrade/try_unwrap/drop; install-fails path not covered here.",
+          "DESIGN.md 4/C20"),
 }
 
 NOT_APPLICABLE = {
